@@ -121,6 +121,25 @@ class PEP(object):
         Point.list_of_leaf_points = list()
         PSDMatrix.counter = 0
 
+    def _reset_solution(self):
+        """
+        Forget the primal and dual values obtained from a previous call to the method `solve`.
+        After this call, evaluating points, expressions, constraints or LMIs raises the "must be solved" errors
+        until a new solution is found.
+
+        """
+        for point in Point.list_of_leaf_points:
+            point._value = None
+        for expression in Expression.list_of_leaf_expressions:
+            expression._value = None
+        for constraint in self._list_of_constraints_sent_to_wrapper:
+            constraint._dual_variable_value = None
+        for psd_matrix in self._list_of_psd_sent_to_wrapper:
+            psd_matrix._dual_variable_value = None
+        self.G_value = None
+        self.F_value = None
+        self.residual = None
+
     def declare_function(self, function_class, **kwargs):
         """
         Instantiate a leaf :class:`Function` and store it in the attribute `list_of_functions`.
@@ -399,6 +418,10 @@ class PEP(object):
             float: Worst-case guarantee of the PEP.
 
         """
+
+        # Forget the solution of a previous solve, if any:
+        # whatever happens below, the values read afterwards are those of this solve, or are not available.
+        self._reset_solution()
 
         # Create an expression that serve for the objective (min of the performance measures).
         # It is created once and reused when the PEP is solved again,
